@@ -151,6 +151,11 @@ class Timeline(object):
         self.options = {k: v for k, v in DEFAULT_OPTIONS.items()}
         if options:
             self.options.update(options)
+        # every timeline owns its default scale and engine options; the
+        # module-level defaults must not be shared (and rewritten) by instances
+        if "scale" not in options:
+            self.options["scale"] = TimeScale()
+        self.options["labella"] = dict(self.options["labella"])
         self.direction = self.options["direction"]
         self.options["labella"]["direction"] = self.direction
         # parse items
